@@ -37,7 +37,7 @@ type c15Checker struct {
 // element to CheckParentless. The loop may be a range or a counted loop with batch[i].
 func c15FindChecker(enq *core.FuncInfo, batch *types.Var) c15Checker {
 	var out c15Checker
-	for _, l := range enq.Lits() {
+	for _, l := range c10AllLits(enq) {
 		l.InspectOwn(func(n ast.Node) bool {
 			switch n.(type) {
 			case *ast.RangeStmt, *ast.ForStmt:
@@ -59,7 +59,7 @@ func c15FindChecker(enq *core.FuncInfo, batch *types.Var) c15Checker {
 				if ok, _ := it.EveryIterationPasses([]core.Point{cs.Pt}, true); ok {
 					out.checkedEach = true
 				}
-				cb := litArg(l, cs.Call, 1)
+				cb := c10LitArg(l, cs.Call, 1)
 				if cb == nil {
 					continue
 				}
@@ -325,7 +325,7 @@ func (a *c15OrderAnalysis) run() {
 				}
 			}
 		}
-		for _, l := range g.Lits() {
+		for _, l := range c10Lits(g) {
 			mark(l)
 		}
 	}
@@ -374,7 +374,7 @@ func (a *c15OrderAnalysis) run() {
 func c15Order(c *core.Ctx) {
 	c.Clause("C15.order", func() {
 		p := c.P
-		enq := c.Fn(c15Proc + ".Enqueue")
+		enq := c15View(c.Fn(c15Proc + ".Enqueue"))
 		procName := c15Proc + ".process"
 		// the mode flag: Enqueue's boolean parameter
 		var ordered *types.Var
@@ -408,7 +408,7 @@ func c15Order(c *core.Ctx) {
 			"the position recorded with a check result is not the index of its event in the batch: the ordered inserter reassembles the batch in another order")
 		// the inserter task(s): literals of Enqueue that call process()
 		nOrdered := 0
-		for _, l := range c15PkgFuncs(p, c15Pkg) {
+		for _, l := range c15Funcs(p) {
 			if c15Root(l) != enq || len(l.CallsTo(procName)) == 0 {
 				continue
 			}
